@@ -129,6 +129,49 @@ func (r *constReader) Read(p []byte) (int, error) {
 	return io.ReadFull(rand.Reader, p)
 }
 
+// Config.Rand variants (all backed by crypto/rand): a reader may legally return fewer bytes than asked for.
+type fullReader struct{}
+
+func (fullReader) Read(p []byte) (int, error) { return io.ReadFull(rand.Reader, p) }
+
+type oneByteReader struct{}
+
+func (oneByteReader) Read(p []byte) (int, error) {
+	if len(p) == 0 {
+		return 0, nil
+	}
+	return io.ReadFull(rand.Reader, p[:1])
+}
+
+type chunkReader struct{}
+
+func (chunkReader) Read(p []byte) (int, error) {
+	if len(p) == 0 {
+		return 0, nil
+	}
+	var b [1]byte
+	if _, err := io.ReadFull(rand.Reader, b[:]); err != nil {
+		return 0, err
+	}
+	n := 1 + int(b[0])%7
+	if n > len(p) {
+		n = len(p)
+	}
+	return io.ReadFull(rand.Reader, p[:n])
+}
+
+func randVariant(name string) io.Reader {
+	switch name {
+	case "full":
+		return fullReader{}
+	case "onebyte":
+		return oneByteReader{}
+	case "chunks":
+		return chunkReader{}
+	}
+	return nil
+}
+
 type gCase struct {
 	ID   string `json:"id"`
 	// parrot | fingerprint | constrand: every connection gets its own spec (selected by ID / imported afresh);
@@ -141,6 +184,7 @@ type gCase struct {
 	K    int    `json:"k"` // constrand: reads of exactly k bytes are constant; connection j uses byte value (b0 + j)
 	B0   int    `json:"b0"`
 	SNI  string `json:"sni"`
+	Rand string `json:"rand"` // Config.Rand of every connection: "" (library default) | full | onebyte | chunks
 }
 
 // ghellos: {"cases":[gCase]} -> per case {ev:"Group", grp, id, mode, spec} then n x {ev:"Hello", g (index of the
@@ -189,7 +233,11 @@ func init() {
 			}
 			line++
 			g := line
-			out.Emit(map[string]any{"ev": "Group", "grp": fmt.Sprintf("%s/%s", c.ID, c.Mode), "id": c.ID, "mode": c.Mode,
+			grp := fmt.Sprintf("%s/%s", c.ID, c.Mode)
+			if c.Rand != "" {
+				grp += "/rand=" + c.Rand
+			}
+			out.Emit(map[string]any{"ev": "Group", "grp": grp, "id": c.ID, "mode": c.Mode, "rand": c.Rand,
 				"spec": descSpec(&spec), "fperr": fpErr})
 			if fpErr != "" {
 				line++
@@ -210,6 +258,8 @@ func init() {
 				cfg := &tls.Config{ServerName: c.SNI, OmitEmptyPsk: true}
 				if c.Mode == "constrand" {
 					cfg.Rand = &constReader{B: byte(c.B0 + j), K: c.K}
+				} else if r := randVariant(c.Rand); r != nil {
+					cfg.Rand = r
 				}
 				u, hello, herr, pn := wireHello(func(cn *hlib.BufConn) *tls.UConn {
 					if shared {
